@@ -239,6 +239,16 @@ def run(rep, tier):
     rep.outside += ['every valid Conjure definition: only the IR family of /verif/gen-crates/types', 'objects other than ObjD, aliases, primitives in their encodings (C15, C16, C01 cover the leaves)']
 
 
+def battery_union():
+    ops = [({'op': 'gen_union', 'doc': '{"type":"integer","integer":5}'}, '{"type":"integer","integer":5}'), ({'op': 'gen_union', 'doc': '{"obj":{"foo":1},"type":"obj"}'}, '{"type":"obj","obj":{"foo":1}}'),
+           ({'op': 'gen_union', 'doc': '{"type":"zzz","zzz":[1]}'}, '{"type":"zzz","zzz":[1]}'), ({'op': 'gen_union', 'doc': '{"type":"text","text":"x"}'}, '{"type":"text","text":"x"}')]
+    out = []
+    for (o, want), r in zip(ops, replay([o for o, _ in ops])):
+        if r.get('reserialized') != want:
+            out.append(f'{o["doc"]} re-serializes as {r.get("reserialized")!r}, canonical form {want!r}')
+    return out
+
+
 def run_union_serialize(rep, prog):
     """re-serialisation: {"type": variant, variant: value} in that order"""
     for cfg in ('types', 'exhaustive_types'):
@@ -287,7 +297,7 @@ def run_union_serialize(rep, prog):
                 ok = len(entries) == 2 and entries[0] == (b'type', wire.encode()) and entries[1][0] == wire.encode() and entries[1][1] == payload and ev[-1][0] == 'end'
                 rep.query(f'union-serialize:{cfg}:{vname}:canonical-order', 'unsat' if ok else 'sat', 0.0, events=[str(e)[:60] for e in entries])
                 if not ok:
-                    rep.violation('C02:union-serialize', f'{cfg} TestUnion::{vname} serializes as {entries} instead of type then {wire}', {'events': str(ev)[:400]})
+                    rep.structural('C02:union-serialize', f'{cfg} TestUnion::{vname} serializes as {entries} instead of type then {wire}', {'events': str(ev)[:400]}, battery_union)
             finish_engine(rep, it)
 
 
